@@ -573,7 +573,7 @@ def r10_5(cx):
         cx.report('R10.5', s, 'rabinkarp-slow', oks, 'the short-haystack fallback receives (&haystack[..span.end], span.start)' if oks else 'find_in_slow returns %s' % [tstr(canon(r.ret), 160) if r.ret else None for r in srows][:2])
     f = cx.body('packed::api::Searcher::find')
     t = strip_convs(expand_vars(f, f.local_term(0, expand=True)))
-    ok = is_call(t, r'Searcher::find_in$') and is_agg(t[2][2], r'Range$') and t[2][2][3]['start'] == ('c', 0) and is_call(t[2][2][3]['end'], r'core::slice::len$')
+    ok = is_call(t, r'Searcher::find_in$') and is_agg(t[2][2], r'Range$|Span$') and isinstance(t[2][2][3], dict) and t[2][2][3].get('start') == ('c', 0) and is_call(peel(t[2][2][3].get('end')), r'core::slice::len$') and cstr(canon(peel(t[2][2][3]['end'])[2][0])) == cstr(canon(t[2][1]))
     cx.report('R10.5', f, 'find', ok, 'find(h) = find_in(h, 0..h.len())' if ok else 'find = %s' % tstr(t, 200))
     it = cx.body("<packed::api::FindIter<'s, 'h> as core::iter::Iterator>::next")
     # continues at m.end()
